@@ -49,16 +49,23 @@ LEVEL_TEXT = {
             "extracted checker PropCheck.check_c06_after_evalall on every evaluateAll of every generated history and by correspondence with the library (tests).", '6/C06'),
     'C07': ("Machine-checked on the executable model: every direct write to a bound property raises ReadOnlyProperty and leaves the world unchanged; reset keeps "
             "value and observers, removes the updater and re-enables the normal write protocol; destroying/replacing a binding touches no property and no "
-            "observer. 'Former inputs no longer influence it' and 'the replaced binding is never evaluated again' rest on the model's link invariant, which is "
-            "checked on every reached world (PropCheck.check_links) and by correspondence, not proved.", '6/C07'),
-    'C10': ("PARTIAL. Machine-checked: handles of a destroyed signal are inactive and its table empty; a leaf without target raises PropertyDestroyedError without "
-            "reading anything and a failed evaluation leaves the bound property untouched. That no expression leaf, registry entry or update function refers to a "
-            "destroyed object is the model's link invariant: evaluated on every reached world of generated destruction orders (PropCheck.check_links) while the "
-            "real library runs the same orders under ASan/UBSan - tests, not proofs.", '6/C10'),
-    'C11': ("PARTIAL. Machine-checked (signal layer): a move touches no Impl, the destination holds the source's Impl and the source none, belongsTo follows, move "
-            "assignment is disconnectAll of the destination followed by the move, and what the destination held is gone (empty table, dead Impl). Property moves "
-            "(value, observers, binding rewiring, retargeting / invalidation of reading nodes) are part of coq/PropDefs.v, tied by correspondence and checked by "
-            "check_c02 / check_links on every reached world.", '6/C11'),
+            "observer; after reset the former binding is dead and owns no subscription in any signal of any property, only live bindings are subscribed anywhere, "
+            "updater and binding refer to each other - consequences of the link invariant pinv, proved to hold in every world reached by a legal history "
+            "(coq/PropLink*.v, arbitrary expressions, both modes, observers that write or reset, moves, destructions). Tie: differential execution incl. "
+            "rebinding probes; pinv's executable form is evaluated on every reached world.", '6/C07'),
+    'C10': ("Machine-checked on the models: handles of a destroyed signal are inactive and its table empty; a leaf without target raises PropertyDestroyedError "
+            "without reading anything and a failed evaluation leaves the bound property untouched; and the link invariant pinv (17 conjuncts, coq/PropLink.v) "
+            "holds in EVERY world reached by a legal history of property-layer operations - any creation, binding, rebinding, reset, move and destruction order, "
+            "arbitrary expressions and user functions, observers that write or reset: no expression leaf of a live binding refers to a property that is gone, "
+            "each leaf holds live subscriptions on the changed/moved/destroyed signals of exactly the property it refers to, evaluation never reads a missing "
+            "property, no subscription of a destroyed binding remains in any signal. PARTIAL with respect to memory: lifetimes are modelled (alive flags), the "
+            "real library runs the same destruction orders under ASan/UBSan; destroying an object inside its own notification is outside the model.", '6/C10'),
+    'C11': ("Machine-checked (signal layer): a move touches no Impl, the destination holds the source's Impl and the source none, belongsTo follows, move "
+            "assignment is disconnectAll of the destination followed by the move, and what the destination held is gone (empty table, dead Impl). "
+            "Machine-checked (property layer, coq/PropLinkMove.v): move construction and move assignment keep the link invariant - afterwards every leaf that "
+            "read the source reads the destination and is subscribed to the destination's signals, readers of the overwritten destination refer to nothing, "
+            "the moved binding updates the destination, the overwritten binding is gone with all its subscriptions; no signal is left emitting. PARTIAL: values "
+            "and notification order seen by observers across moves are tied by correspondence and check_c02 on every reached world (tests).", '6/C11'),
     'C13': ("Machine-checked on the executable model: a clean node runs no user function, one evaluation runs at most one function per operator node, get() runs "
             "none, evaluator-driven notifications only mark. The strict statement is refuted for immediate mode with several notification paths "
             "(C13_multipath_refuted, known finding KF-C13-multipath). Per-call function invocation sequences are compared with the real library.", '6/C13'),
